@@ -175,6 +175,7 @@ func c19One(c *Ctx, b *Batch, pkg string, cs respCase, respType string, schema *
 			c.Res.Add(proto.Finding{Kind: "violation", Class: cls, What: what, Case: one, Impl: impl})
 		}
 		res := b.Call(map[string]any{"cmd": "unmarshal", "pkg": pkg, "type": respType, "json": text})
+		codecCompare(c, decls, one, respType, text, res)
 		c.Res.Count("mutation:" + kind)
 		outcome := "decoded"
 		if cr, ok := res["crash"]; ok {
